@@ -324,4 +324,127 @@ rb_spec_init_word(const RegisterArea *area, uint32_t na, const RegisterEntry *en
   return 0;
 }
 
+/* ---- table well-formedness ---------------------------------------------
+ * What register_init establishes (C04) and what block access and iteration
+ * rely on (C02, C03): areas and registers ascending and disjoint inside the
+ * 32-bit space, every register linked to the one area that contains it
+ * wholly (area pointer, offset), every area recording exactly the contiguous
+ * run of the registers linked to it.  (Nothing is said about first/last of an
+ * area without registers.) */
+static inline uint32_t rb_area_index(const RegisterTable *t, const RegisterArea *a)
+{
+  for (uint32_t i = 0; i < RB_NA && i < t->areas; i++)
+    if (a == &t->area[i])
+      return i;
+  return t->areas;
+}
+
+static inline bool rb_wf_area(const RegisterTable *t, uint32_t i)
+{
+  const RegisterArea *a = &t->area[i];
+  if (a->size < 1 || RB_A_END(a) > 0xffffffffull)
+    return false;
+  if (i + 1 < t->areas && RB_A_END(a) > RB_M64(t->area[i + 1].base))
+    return false;
+  return true;
+}
+
+static inline bool rb_wf_entry(const RegisterTable *t, uint32_t j)
+{
+  const RegisterEntry *e = &t->entry[j];
+  if (!RB_TYPE_IS_VALUE(e->type) || !RB_CHECK_IS_ENUM(e->check.type) || RB_E_END(e) > 0xffffffffull)
+    return false;
+  if (j + 1 < t->entries && RB_E_END(e) > RB_M64(t->entry[j + 1].address))
+    return false;
+  uint32_t ai = rb_area_index(t, e->area);
+  if (ai >= t->areas)
+    return false;
+  const RegisterArea *a = &t->area[ai];
+  return RB_E_INSIDE(e, a) && e->offset == e->address - a->base;
+}
+
+static inline bool rb_wf_run(const RegisterTable *t, uint32_t i)
+{
+  const RegisterArea *a = &t->area[i];
+  uint32_t cnt = 0, first = 0, last = 0;
+  for (uint32_t j = 0; j < RB_NE && j < t->entries; j++)
+    if (t->entry[j].area == a) {
+      if (cnt == 0)
+        first = j;
+      last = j;
+      cnt++;
+    }
+  if (a->entry.count != cnt)
+    return false;
+  return cnt == 0 || (a->entry.first == first && a->entry.last == last && last - first + 1u == cnt);
+}
+
+static inline bool rb_table_wf(const RegisterTable *t)
+{
+  if (t->areas < 1 || t->areas > RB_NA || t->entries > RB_NE)
+    return false;
+  for (uint32_t i = 0; i < RB_NA && i < t->areas; i++)
+    if (!rb_wf_area(t, i))
+      return false;
+  for (uint32_t j = 0; j < RB_NE && j < t->entries; j++)
+    if (!rb_wf_entry(t, j))
+      return false;
+  for (uint32_t i = 0; i < RB_NA && i < t->areas; i++)
+    if (!rb_wf_run(t, i))
+      return false;
+  return true;
+}
+
+/* ---- C04: postconditions of register_init as plain C -------------------- */
+
+#define RB_AREA_DESC_SAME(a, b) ((a)->read == (b)->read && (a)->write == (b)->write && (a)->flags == (b)->flags \
+    && (a)->base == (b)->base && (a)->size == (b)->size && (a)->mem == (b)->mem)
+#define RB_ENTRY_DESC_SAME(a, b) ((a)->type == (b)->type && (a)->default_value.u64 == (b)->default_value.u64 \
+    && (a)->address == (b)->address && (a)->check.type == (b)->check.type \
+    && (a)->check.arg.range.min.u64 == (b)->check.arg.range.min.u64 \
+    && (a)->check.arg.range.max.u64 == (b)->check.arg.range.max.u64 \
+    && (a)->name == (b)->name && (a)->flags == (b)->flags && (a)->user == (b)->user)
+
+/* the description (terminators included) is what it was */
+static inline bool rb_description_same(const RegisterTable *t, const RegisterArea *area0, uint32_t na,
+                                       const RegisterEntry *entry0, uint32_t ne)
+{
+  for (uint32_t i = 0; i <= RB_NA && i <= na; i++)
+    if (!RB_AREA_DESC_SAME(&t->area[i], &area0[i]))
+      return false;
+  for (uint32_t j = 0; j <= RB_NE && j <= ne; j++)
+    if (!RB_ENTRY_DESC_SAME(&t->entry[j], &entry0[j]))
+      return false;
+  return true;
+}
+
+/* every word of every memory-backed area is the image word of the default
+ * located there (areas that load defaults) or zero */
+static inline bool rb_init_words_ok(const RegisterTable *t, uint32_t na, uint32_t ne, bool be)
+{
+  for (uint32_t i = 0; i < RB_NA && i < na; i++) {
+    const RegisterArea *a = &t->area[i];
+    if (a->mem != NULL)
+      for (uint32_t k = 0; k < RB_SZ && k < a->size; k++)
+        if (a->mem[k] != rb_spec_init_word(t->area, na, t->entry, ne, be, i, k))
+          return false;
+  }
+  return true;
+}
+
+static inline bool rb_init_verdict_ok(RegisterInit r, struct rb_init_expect x)
+{
+  if (r.code != x.code)
+    return false;
+  switch (x.code) {
+  case REG_INIT_NO_AREAS: case REG_INIT_AREA_INVALID_ORDER: case REG_INIT_AREA_ADDRESS_OVERLAP:
+    return r.pos.area == x.index;
+  case REG_INIT_ENTRY_INVALID_ORDER: case REG_INIT_ENTRY_ADDRESS_OVERLAP:
+  case REG_INIT_ENTRY_IN_MEMORY_HOLE: case REG_INIT_ENTRY_INVALID_DEFAULT:
+    return r.pos.entry == x.index;
+  default:
+    return true;
+  }
+}
+
 #endif
